@@ -78,6 +78,24 @@ Wanted(g, ch, ex) == \/ Thorough \/ ~g.selferr
                      \/ /\ ~LookAlikeLast(g) /\ (IF Parity(g) = 0 THEN ch = ex ELSE ch # ex)
                      \* entries that are alone only because their last component is a look-alike: one (chain, explicit) pair
                      \/ /\ LookAlikeLast(g) /\ ch = (Parity(g) = 0) /\ ex = ((HashM(g.names[1], 4) \div 2) = 0)
+\* ORDER / ADJACENCY between the entries of one run (deterministic, every tier): a benign entry e1 in some archive directory and a
+\* traversal entry e2 that shares its 1..k leading components LITERALLY (same concretisation index `ix`, same separators), with
+\* enough `..` behind the shared prefix to land in `out` itself, one and two levels above it; in both orders, adjacent and
+\* separated by an entry e3 of another directory.  Extraction order = listfile order / command-line order / (patch chain, whole
+\* archive) name order, which is why e1's last component sorts before e2's continuation.
+Shared == {<<"a">>, <<"C">>, <<"a", "U">>, <<"C", "a">>}
+Ups(u) == [i \in 1..u |-> "P"]
+Nm(cs, st, ix) == [c |-> cs, s |-> [i \in 1..(Len(cs) - 1) |-> st], ix |-> ix]
+E2Comps(sh) == LET k == Len(sh) IN {sh \o <<"L">> \o Ups(u) \o <<"U">> : u \in (k + 1)..(k + 3)} \cup {sh \o Ups(u) \o <<"U">> : u \in k..(k + 2)}
+PairSeqs == UNION {UNION {UNION {
+               LET e1 == Nm(sh \o <<"C">>, st, 3) e2 == Nm(c2, st, 3) e3 == Nm(<<"U", "a">>, st, 7) IN
+               {<<e1, e2>>, <<e2, e1>>, <<e1, e3, e2>>, <<e1, e2, e3>>}
+               : c2 \in E2Comps(sh)} : st \in Seps} : sh \in Shared}
+PairGroups == {[names |-> q, hasroot |-> FALSE, hasparent |-> TRUE, selferr |-> FALSE] : q \in PairSeqs}
+PairProduct == {[names |-> g.names, hasroot |-> g.hasroot, hasparent |-> g.hasparent, selferr |-> g.selferr,
+                 preserve |-> pres, chain |-> ch, explicit |-> ex, entries |-> "present", skipmode |-> "rand"]
+                : g \in PairGroups, pres \in BOOLEAN, ch \in BOOLEAN, ex \in BOOLEAN}
+
 Product == {[names |-> g.names, hasroot |-> g.hasroot, hasparent |-> g.hasparent, selferr |-> g.selferr,
              preserve |-> pres, chain |-> ch, explicit |-> ex, entries |-> "present", skipmode |-> "rand"]
             : g \in Groups, pres \in BOOLEAN, ch \in BOOLEAN, ex \in BOOLEAN}
@@ -96,10 +114,14 @@ ErrSelected == {c \in ErrProduct : /\ (c.selferr => c.preserve)
 
 \* decoys: a file is planted wherever the unguarded deviation would write one of the case's entries outside the output directory
 \* (so that deleting / truncating / overwriting it is observable, not only creating it)
-DecoysOf(c) == IF ~c.preserve THEN <<>>
-               ELSE SetToSeq(UNION {{p \in DeviationTarget(ConcName(c.names[i], i - 1), ProbeOpt(TRUE)) : ~Below(OutAbs, p)}
-                                    : i \in {j \in 1..Len(c.names) : BadForGuard(c.names[j].c)}})
-Numbered == LET q == SetToSeq(Selected) \o SetToSeq(ErrSelected) IN [i \in 1..Len(q) |-> [id |-> i, decoys |-> DecoysOf(q[i])] @@ q[i]]
+\* every name carries the index its plain / long / non-ASCII components are concretised with (default: its position)
+WithIx(names) == [i \in 1..Len(names) |-> IF "ix" \in DOMAIN names[i] THEN names[i] ELSE [c |-> names[i].c, s |-> names[i].s, ix |-> i - 1]]
+DecoysOf(names, pres) == IF ~pres THEN <<>>
+               ELSE SetToSeq(UNION {{p \in DeviationTarget(ConcName(names[i], names[i].ix), ProbeOpt(TRUE)) : ~Below(OutAbs, p)}
+                                    : i \in {j \in 1..Len(names) : BadForGuard(names[j].c)}})
+Numbered == LET q == SetToSeq(Selected) \o SetToSeq(ErrSelected) \o SetToSeq(PairProduct) IN
+            [i \in 1..Len(q) |-> LET nm == WithIx(q[i].names) IN
+                                 [id |-> i, decoys |-> DecoysOf(nm, q[i].preserve), names |-> nm] @@ q[i]]
 
 ASSUME ndJsonSerialize(IOEnv.CASES, Numbered)
 ASSUME PrintT(<<"GENERATED", Len(Numbered), "cases", Cardinality(Chosen), "names", Cardinality(Groups), "archives">>)
